@@ -716,3 +716,420 @@ Proof.
     destruct (is_reversed v); [unfold cmpl; rewrite gather_map|]; reflexivity. }
   rewrite E. reflexivity.
 Qed.
+
+(** * PHASE 3 (1): copies - histories of slice / rc / copy / deepcopy on alignments *)
+
+From CG3 Require Model.AnnotRun.
+Import Model.AnnotRun.
+
+(** row invariant relative to the ORIGINAL degapped row [p0]: the C03 class
+    invariant, DNA, [n] columns, and the phase-1 history invariant (the row's
+    (view, parent) reads [p0]'s residues at every absolute coordinate it covers) *)
+Definition RH (p0 : list Z) (n : Z) (r : arow) : Prop :=
+  RowWF r /\ skind (adata r) = KDna /\ row_len r = n /\ hinv p0 0 (sv (adata r), parent (adata r)).
+
+Lemma RH_init s r : row_of_string KDna s = Ok r -> RH (strip s) (zlen s) r.
+Proof.
+  intros H. destruct (ROK_init s r H) as (Hwf & Hk & Hn & Hv).
+  assert (Hp : parent (adata r) = strip s).
+  { unfold row_of_string, of_view in H. destruct (fresh KDna (strip s)) as [d|e] eqn:Ed; cbn [bind] in H; [|discriminate].
+    injection H as <-. cbn [adata]. unfold fresh in Ed. destruct (with_view_inv _ _ _ _ Ed) as (_ & Hp & _). exact Hp. }
+  split; [exact Hwf|]. split; [exact Hk|]. split; [exact Hn|].
+  rewrite Hp in *. destruct Hv as (W & O & P). split; [exact W|]. split; [exact O|].
+  intros Hl. destruct (P Hl) as (A & B & C). split; [exact A|]. split; [exact B|]. intros x _. rewrite C. reflexivity.
+Qed.
+
+Lemma hinv_getitem p0 v p x y c v' : hinv p0 0 (v, p) -> c = None \/ c = Some 1 \/ c = Some (-1) ->
+  View.getitem_slice FSeqView v x y c = View.Ok v' -> hinv p0 0 (v', p).
+Proof.
+  intros Hv Hc Hg. destruct Hc as [->|[->| ->]].
+  - apply (hinv_step p0 0 (v, p) (HOp (VSlice x y None)) (v', p) Hv); [cbn; auto|].
+    cbn [apply_hop apply_vop View.bind]. rewrite Hg. reflexivity.
+  - apply (hinv_step p0 0 (v, p) (HOp (VSlice x y (Some 1))) (v', p) Hv); [cbn; auto|].
+    cbn [apply_hop apply_vop View.bind]. rewrite Hg. reflexivity.
+  - (* rc is the [::-1] slice with both bounds omitted *)
+    destruct Hv as (Hwf & Hoff & Hpos).
+    assert (Hvv : vinv p (offset v) v).
+    { split; [assumption|]. split; [assumption|]. intros Hl. destruct (Hpos Hl) as (A & B & _). tauto. }
+    destruct (vinv_getitem p (offset v) v x y (Some (-1)) v' Hvv eq_refl Hg) as (Hwf' & Hoff' & Hpos').
+    split; [assumption|]. split; [assumption|]. intros Hl'. destruct (Hpos' Hl') as (A & B & C).
+    destruct (shape_getitem_slice _ _ _ _ _ _ Hwf Hg) as [_ Hz]. pose proof (vlen_nonneg v).
+    assert (Hl : 0 < vlen v) by (destruct (Z.eq_dec (vlen v) 0) as [E0|E0]; [specialize (Hz E0); lia|lia]).
+    destruct (Hpos Hl) as (_ & _ & Hres). split; [assumption|]. split; [assumption|]. rewrite C. exact Hres.
+Qed.
+
+Lemma RH_slice p0 n r a b r' : RH p0 n r -> 0 <= a <= b -> b <= n ->
+  row_getitem_slice repaired r (Some a) (Some b) = Ok r' -> RH p0 (b - a) r'.
+Proof.
+  intros (Hwf & Hk & Hn & Hv) Hab Hb H.
+  destruct (row_slice_python repaired r (Some a) (Some b) Hwf) as (r2 & E & Hwf' & Hk' & Hstr);
+    [cbn; lia|cbn; lia|]. rewrite E in H. injection H as Heq. subst r2.
+  split; [exact Hwf'|]. split; [congruence|]. split.
+  - rewrite <- (zlen_row_str r' Hwf'), Hstr. apply zlen_unit_slice; [lia|]. rewrite (zlen_row_str r Hwf). lia.
+  - destruct (row_slice_data _ _ _ _ _ E) as (x & y & Hs). destruct (seq_slice_inv _ _ _ _ Hs) as (Hg & Hp).
+    rewrite Hp. exact (hinv_getitem p0 _ _ x y None _ Hv (or_introl eq_refl) Hg).
+Qed.
+
+Lemma RH_rc p0 n r r' : RH p0 n r -> row_rc r = Ok r' -> RH p0 n r'.
+Proof.
+  intros (Hwf & Hk & Hn & Hv) H.
+  destruct (row_rc_spec r Hwf ltac:(rewrite Hk; discriminate)) as (r2 & E & Hwf' & Hk' & Hstr).
+  rewrite E in H. injection H as Heq. subst r2.
+  split; [exact Hwf'|]. split; [congruence|]. split.
+  - rewrite <- (zlen_row_str r' Hwf'), Hstr. unfold rc_str. rewrite zlen_map, zlen_rev, (zlen_row_str r Hwf). exact Hn.
+  - unfold row_rc in E. destruct (nucleic_reversed (amap r)) as [nm|e]; cbn [bind] in E; [|discriminate].
+    unfold of_view in E. destruct (apply_op Fixed (adata r) Rc) as [d|e] eqn:Ed; cbn [bind] in E; [|discriminate].
+    injection E as <-. cbn [adata]. cbn [apply_op] in Ed. rewrite Hk in Ed.
+    destruct (with_view_inv _ _ _ _ Ed) as (Hg & Hp & _). rewrite Hp.
+    exact (hinv_getitem p0 _ _ None None (Some (-1)) _ Hv (or_intror (or_intror eq_refl)) Hg).
+Qed.
+
+(** [data.copy(sliced=True)] does not look at name / moltype flags *)
+Lemma copy_sliced_core s s' : apply_op Fixed s CopySliced = View.Ok s' ->
+  apply_op Fixed (mkS (sv s) (parent s) KDna true) CopySliced = View.Ok (mkS (sv s') (parent s') KDna true) /\
+  skind s' = skind s.
+Proof.
+  cbn [apply_op sv parent skind has_id]. destruct (copy_sliced false (sv s) (parent s)) as [[v'|e] sg]; [|discriminate].
+  destruct (negb (parent_start (sv s) =? 0) && negb (offset v' =? 0)); [discriminate|].
+  intros [= <-]. cbn. split; reflexivity.
+Qed.
+
+(** [Aligned.deepcopy(sliced=True)]: same map, re-based sequence; the pinned
+    comparison [strand == "-"] of an int with a str never holds, so the db is kept *)
+Lemma RH_copy p0 n r d : RH p0 n r -> of_view (apply_op Fixed (adata r) CopySliced) = Ok d ->
+  RH p0 n (mkRow (amap r) d).
+Proof.
+  intros ((Hm & Hs & Hp) & Hk & Hn & Hv) H. unfold of_view in H.
+  destruct (apply_op Fixed (adata r) CopySliced) as [d'|e] eqn:E; [|discriminate]. injection H as <-.
+  pose proof (apply_op_spec Fixed (adata r) CopySliced Hs I) as Hspec. rewrite E in Hspec.
+  destruct Hspec as (Hs' & Hplain). cbn [spec_op] in Hplain. unfold plain_of in Hplain.
+  injection Hplain as Hre Hkk.
+  destruct (copy_sliced_core _ _ E) as (Ecore & _).
+  split; [split; [exact Hm|split; [exact Hs'|cbn [amap adata]; rewrite <- Hre; exact Hp]]|].
+  split; [cbn [adata]; congruence|]. split; [exact Hn|]. cbn [adata].
+  apply (hinv_step p0 0 (sv (adata r), parent (adata r)) HCopy (sv d', parent d') Hv I).
+  cbn [apply_hop View.bind]. rewrite Ecore. reflexivity.
+Qed.
+
+(** histories: slices inside the current columns, rc, and copies
+    ([deepcopy(sliced=True)], [deepcopy(sliced=False)], [copy()]) *)
+Fixpoint hhist_ok (n : Z) (ops : list alhop) : Prop :=
+  match ops with
+  | [] => True
+  | AOp (ASlice a b) :: t => 0 <= a <= b /\ b <= n /\ hhist_ok (b - a) t
+  | _ :: t => hhist_ok n t
+  end.
+
+Fixpoint hhist_len (n : Z) (ops : list alhop) : Z :=
+  match ops with [] => n | AOp (ASlice a b) :: t => hhist_len (b - a) t | _ :: t => hhist_len n t end.
+
+Lemma mapM_Forall2 {A B C} (f : B -> res C) (P : A -> B -> Prop) (Q : A -> C -> Prop) :
+  (forall a x y, P a x -> f x = Ok y -> Q a y) ->
+  forall la l, Forall2 P la l -> forall l', mapM f l = Ok l' -> Forall2 Q la l'.
+Proof.
+  intros Hf la l H. induction H as [|a x la l Hax _ IH]; intros l'; cbn [mapM].
+  - intros [= <-]. constructor.
+  - destruct (f x) as [y|e] eqn:E; cbn [bind]; [|discriminate].
+    destruct (mapM f l) as [ys|e] eqn:Et; cbn [bind]; [|discriminate]. intros [= <-].
+    constructor; [exact (Hf a x y Hax E)|exact (IH ys eq_refl)].
+Qed.
+
+Lemma fold_alhop_err e ops : fold_left apply_alhop ops (Err e) = Err e.
+Proof.
+  induction ops as [|o ops IH]; [reflexivity|]. cbn [fold_left].
+  assert (E : apply_alhop (Err e) o = Err e) by (destruct o as [o'|[|]]; reflexivity). rewrite E. exact IH.
+Qed.
+
+Lemma alignment_copy_history ops : forall n (p0s : list (list Z)) rows rows',
+  Forall2 (fun p0 r => RH p0 n r) p0s rows -> hhist_ok n ops ->
+  fold_left apply_alhop ops (Ok rows) = Ok rows' ->
+  Forall2 (fun p0 r => RH p0 (hhist_len n ops) r) p0s rows'.
+Proof.
+  induction ops as [|o ops IH]; intros n p0s rows rows' Hr Hh H.
+  - cbn in H. injection H as <-. exact Hr.
+  - cbn [fold_left] in H. destruct (apply_alhop (Ok rows) o) as [rows1|e] eqn:E; [|rewrite fold_alhop_err in H; discriminate].
+    destruct o as [[a b|]|[|]]; cbn [hhist_ok hhist_len] in *.
+    + destruct Hh as (Hab & Hb & Hh). cbn [apply_alhop apply_alop bind] in E.
+      apply (IH (b - a) p0s rows1 rows'); [|exact Hh|exact H].
+      apply (mapM_Forall2 (fun r => row_getitem_slice repaired r (Some a) (Some b)) (fun p0 r => RH p0 n r)
+               (fun p0 r => RH p0 (b - a) r)) with (l := rows); [|exact Hr|exact E].
+      intros p0 x y Hx Hy. exact (RH_slice p0 n x a b y Hx Hab Hb Hy).
+    + cbn [apply_alhop apply_alop bind] in E. apply (IH n p0s rows1 rows'); [|exact Hh|exact H].
+      apply (mapM_Forall2 row_rc (fun p0 r => RH p0 n r) (fun p0 r => RH p0 n r)) with (l := rows); [|exact Hr|exact E].
+      intros p0 x y Hx Hy. exact (RH_rc p0 n x y Hx Hy).
+    + cbn [apply_alhop bind] in E. apply (IH n p0s rows1 rows'); [|exact Hh|exact H].
+      apply (mapM_Forall2 (fun r => bind (of_view (apply_op Fixed (adata r) CopySliced)) (fun d => Ok (mkRow (amap r) d)))
+               (fun p0 r => RH p0 n r) (fun p0 r => RH p0 n r)) with (l := rows); [|exact Hr|exact E].
+      intros p0 x y Hx Hy. destruct (of_view (apply_op Fixed (adata x) CopySliced)) as [d|e] eqn:Ed; cbn [bind] in Hy; [|discriminate].
+      injection Hy as <-. exact (RH_copy p0 n x d Hx Ed).
+    + cbn [apply_alhop] in E. injection E as <-. exact (IH n p0s rows rows' Hr Hh H).
+Qed.
+
+Lemma alignment_copy_init strs n rows : Forall (fun s => zlen s = n) strs ->
+  mapM (row_of_string KDna) strs = Ok rows -> Forall2 (fun p0 r => RH p0 n r) (map strip strs) rows.
+Proof.
+  intros Hs. revert rows. induction strs as [|s t IH]; intros rows; cbn [mapM map].
+  - intros [= <-]. constructor.
+  - inversion Hs as [|x y Hz Ht]; subst.
+    destruct (row_of_string KDna s) as [r|e] eqn:E; cbn [bind]; [|discriminate].
+    destruct (mapM (row_of_string KDna) t) as [rs|e] eqn:Et; cbn [bind]; [|discriminate]. intros [= <-].
+    constructor; [exact (RH_init s r E)|exact (IH Ht rs eq_refl)].
+Qed.
+
+Lemma RH_hyps p0 n r : RH p0 n r -> 0 < vlen (sv (adata r)) ->
+  IndelMapSpec.WF (amap r) /\ contig (sv (adata r)) /\ parent_length (amap r) = vlen (sv (adata r)) /\
+  zlen (parent (adata r)) = seq_len (sv (adata r)) /\
+  forall x, parent_start (sv (adata r)) <= x < parent_stop (sv (adata r)) ->
+    residue (parent (adata r)) (offset (sv (adata r))) x = residue p0 0 x.
+Proof.
+  intros ((Hm & Hs & Hp) & Hk & Hn & (Hwf & Ho & Hpos)) Hl.
+  destruct (Hpos Hl) as (Habs & Hz & Hres).
+  split; [exact Hm|]. split; [split; [assumption|split; assumption]|]. split.
+  - rewrite Hp. unfold realise. destruct (is_reversed (sv (adata r))); rewrite ?zlen_map; exact (len_value_lemma _ _ Hwf Hz).
+  - split; [exact Hz|]. intros x Hx. apply Hres.
+    pose proof (seg_bounds _ Hwf) as Hb. unfold seg_lo, seg_hi in Hb. lia.
+Qed.
+
+(** HEADLINE (copies, alignments): every history of slices, reverse complements,
+    deepcopy(sliced=True|False) and copy() of an alignment: on every row that
+    still displays residues, every feature of that row's sequence is returned
+    under the same condition, reads the same columns, and its sequence-level
+    slice is the ORIGINAL row's residues restricted to the displayed segment *)
+Lemma copies_preserve_features_aln_lemma fx strs n ops rows i s r f partial fv :
+  Forall (fun s => zlen s = n) strs -> hhist_ok n ops ->
+  fold_left apply_alhop ops (mapM (row_of_string KDna) strs) = Ok rows ->
+  nth_error strs i = Some s -> nth_error rows i = Some r ->
+  0 < vlen (sv (adata r)) -> spans_ok 0 (f_spans f) ->
+  feature_on_view fx (sv (adata r)) f = View.Ok fv ->
+  let v := sv (adata r) in
+  fv_minus fv = xorb (f_minus f) (is_reversed v) /\
+  get_slice_str v (parent (adata r)) fv = View.Ok (denoted (strip s) 0 (parent_start v) (parent_stop v) f) /\
+  if db_match partial (parent_start v) (parent_stop v) f then
+    exists am pm, aln_feature fx r f partial = Ok (Some (fv_minus fv, am)) /\
+      Forall2 (cell_column (abs (amap r))) (den am) (den (fmap_of (vlen v) (fv_map fv))) /\
+      projected_map r am = Ok pm /\ den pm = den (fmap_of (vlen v) (fv_map fv))
+  else aln_feature fx r f partial = Ok None.
+Proof.
+  intros Hs Hh Hfold Hsi Hri Hpos Hok Hfv v. subst v.
+  destruct (mapM (row_of_string KDna) strs) as [rows0|e] eqn:E0; [|rewrite fold_alhop_err in Hfold; discriminate].
+  pose proof (alignment_copy_history ops n (map strip strs) rows0 rows (alignment_copy_init strs n rows0 Hs E0) Hh Hfold) as Hall.
+  assert (Hr : RH (strip s) (hhist_len n ops) r).
+  { clear - Hall Hsi Hri. revert i strs Hsi Hri Hall. generalize (hhist_len n ops) as m.
+    intros m i. revert rows. induction i as [|i IH]; intros rows strs Hsi Hri Hall.
+    - destruct strs as [|s0 t]; [discriminate|]. destruct rows as [|r0 rs]; [discriminate|].
+      cbn in Hsi, Hri. injection Hsi as ->. injection Hri as ->. cbn [map] in Hall. inversion Hall; subst. assumption.
+    - destruct strs as [|s0 t]; [discriminate|]. destruct rows as [|r0 rs]; [discriminate|].
+      cbn in Hsi, Hri. cbn [map] in Hall. inversion Hall; subst. eapply IH; eauto. }
+  destruct (RH_hyps _ _ r Hr Hpos) as (Hm & Hc & Hpl & Hz & Hres).
+  destruct (feature_slice_lemma fx (sv (adata r)) (parent (adata r)) f fv Hc Hpos Hz Hok Hfv) as (H1 & H2).
+  split; [exact H1|]. split.
+  - rewrite H2. f_equal. apply denoted_same_residues. exact Hres.
+  - exact (aln_feature_spec fx r f partial fv Hm Hc Hpl Hpos Hok Hfv).
+Qed.
+
+(** * PHASE 3 (2): spans of the alignment-level map - what Feature.get_slice() reads *)
+
+Definition fwd (sp : fspan) : bool := match sp with FS _ _ true => false | _ => true end.
+
+Lemma mk_span_fwd a b : fwd (mk_span a b false) = true.
+Proof. unfold mk_span. destruct (a >? b); reflexivity. Qed.
+
+Lemma span_getitem_fwd sp a b x : fwd sp = true -> span_getitem sp a b = Ok x -> fwd x = true.
+Proof.
+  unfold span_getitem. destruct sp as [s e [|]|n]; cbn [fwd]; intros Hf; [discriminate| |].
+  - destruct (_ >? _); [discriminate|]. intros [= <-]. apply mk_span_fwd.
+  - intros [= <-]. reflexivity.
+Qed.
+
+Lemma forallb_firstn {A} (f : A -> bool) n l : forallb f l = true -> forallb f (firstn n l) = true.
+Proof.
+  revert l. induction n as [|n IH]; intros [|x l]; cbn; try reflexivity. intros H.
+  apply andb_prop in H. destruct H as (Hx & Hl). rewrite Hx, (IH l Hl). reflexivity.
+Qed.
+
+Lemma forallb_skipn {A} (f : A -> bool) n l : forallb f l = true -> forallb f (skipn n l) = true.
+Proof.
+  revert l. induction n as [|n IH]; intros [|x l]; cbn; try reflexivity; [tauto|]. intros H.
+  apply andb_prop in H. destruct H as (_ & Hl). exact (IH l Hl).
+Qed.
+
+Lemma forallb_zslice {A} (f : A -> bool) l a b : forallb f l = true -> forallb f (zslice l a b) = true.
+Proof. intros H. unfold zslice. apply forallb_firstn, forallb_skipn, H. Qed.
+
+Lemma forallb_set_at {A} (f : A -> bool) l : forall i x, forallb f l = true -> f x = true -> forallb f (set_at l i x) = true.
+Proof.
+  induction l as [|y l IH]; intros i x H Hx; cbn [set_at]; [reflexivity|].
+  cbn [forallb] in H. apply andb_prop in H. destruct H as (Hy & Hl).
+  destruct (i =? 0); cbn [forallb]; [rewrite Hx, Hl; reflexivity|rewrite Hy, (IH _ _ Hl Hx); reflexivity].
+Qed.
+
+Lemma nth_span_fwd l i : forallb fwd l = true -> fwd (nth_span l i) = true.
+Proof.
+  intros H. unfold nth_span. destruct (nth_in_or_default (Z.to_nat i) l (FL 0)) as [Hin| ->]; [|reflexivity].
+  exact (proj1 (forallb_forall _ _) H _ Hin).
+Qed.
+
+Lemma forallb_app_true {A} (f : A -> bool) a b : forallb f a = true -> forallb f b = true -> forallb f (a ++ b) = true.
+Proof. intros Ha Hb. rewrite forallb_app, Ha, Hb. reflexivity. Qed.
+
+(** [Span.remap_with] over forward spans gives forward spans *)
+Lemma remap_with_fwd sp fm r : forallb fwd (fspans fm) = true -> fwd sp = true ->
+  remap_with sp fm = Ok r -> forallb fwd r = true.
+Proof.
+  intros Hfm Hsp. destruct sp as [s e [|]|n]; cbn [fwd] in Hsp; [discriminate| |].
+  2:{ cbn. intros [= <-]. reflexivity. }
+  unfold remap_with. cbv zeta. destruct (zlen (fspans fm) =? 0); [discriminate|].
+  set (res0 := zslice (fspans fm) _ _).
+  assert (H0 : forallb fwd res0 = true) by (apply forallb_zslice; exact Hfm).
+  match goal with |- bind ?X ?F = Ok r -> _ => destruct X as [res1|c] eqn:E1; cbn [bind]; [|discriminate] end.
+  assert (H1 : forallb fwd res1 = true).
+  { destruct (zlen res0 =? 0); [injection E1 as <-; exact H0|].
+    match type of E1 with bind ?X ?F = Ok res1 => destruct X as [res2|c] eqn:E2; cbn [bind] in E1; [|discriminate] end.
+    assert (H2 : forallb fwd res2 = true).
+    { destruct (_ >? 0) in E2; [|injection E2 as <-; exact H0].
+      match type of E2 with bind ?X ?F = Ok res2 => destruct X as [x|c] eqn:E3; cbn [bind] in E2; [|discriminate] end.
+      injection E2 as <-. apply forallb_set_at; [exact H0|].
+      exact (span_getitem_fwd _ _ _ _ (nth_span_fwd _ _ H0) E3). }
+    destruct (_ >? 0) in E1; [|injection E1 as <-; exact H2].
+    match type of E1 with bind ?X ?F = Ok res1 => destruct X as [x|c] eqn:E3; cbn [bind] in E1; [|discriminate] end.
+    injection E1 as <-. apply forallb_set_at; [exact H2|].
+    exact (span_getitem_fwd _ _ _ _ (nth_span_fwd _ _ H2) E3). }
+  intros [= <-].
+  destruct (s <? 0); destruct (e >? _); cbn [forallb fwd]; rewrite ?forallb_app; cbn [forallb fwd]; rewrite H1; reflexivity.
+Qed.
+
+Lemma remap_all_fwd fm l : forallb fwd (fspans fm) = true -> forallb fwd l = true ->
+  forall r, remap_all l fm = Ok r -> forallb fwd r = true.
+Proof.
+  intros Hfm. induction l as [|sp t IH]; intros Hl r; cbn [remap_all].
+  - intros [= <-]. reflexivity.
+  - cbn [forallb] in Hl. apply andb_prop in Hl. destruct Hl as (Hsp & Ht).
+    destruct (remap_with sp fm) as [hd|c] eqn:E; cbn [bind]; [|discriminate].
+    destruct (remap_all t fm) as [tl|c] eqn:Et; cbn [bind]; [|discriminate]. intros [= <-].
+    apply forallb_app_true; [exact (remap_with_fwd sp fm hd Hfm Hsp E)|exact (IH Ht tl eq_refl)].
+Qed.
+
+(** the inverse of a map of forward in-parent spans has forward spans *)
+Lemma inv_temp_le plen l : forallb fwd l = true -> forallb (FeatureMapSpec.span_in plen) l = true ->
+  forall cum, Forall (fun q : quad => let '(_, _, cs, ce) := q in cs <= ce) (inv_temp cum l).
+Proof.
+  induction l as [|[s e r|n] t IH]; intros Hf Hi cum; cbn [inv_temp]; [constructor| |].
+  - cbn [forallb] in Hf, Hi. apply andb_prop in Hf. destruct Hf as (Hr & Hf). apply andb_prop in Hi. destruct Hi as (Hs & Hi).
+    destruct r; [discriminate|]. cbn in Hs. constructor; [lia|exact (IH Hf Hi _)].
+  - cbn [forallb] in Hf, Hi. apply andb_prop in Hf. destruct Hf as (_ & Hf). apply andb_prop in Hi. destruct Hi as (_ & Hi).
+    exact (IH Hf Hi _).
+Qed.
+
+Lemma inv_loop_fwd temp : Forall (fun q : quad => let '(_, _, cs, ce) := q in cs <= ce) temp ->
+  forall ls sp ls', inv_loop temp ls = Ok (sp, ls') -> forallb fwd sp = true.
+Proof.
+  induction temp as [|[[[s e] cs] ce] t IH]; intros H ls sp ls'; cbn [inv_loop].
+  - intros [= <- _]. reflexivity.
+  - inversion H as [|x y Hq Ht]; subst. destruct (s <? ls); [discriminate|].
+    destruct (inv_loop t e) as [[tl l2]|c] eqn:E; cbn [bind]; [|discriminate]. intros [= <- _].
+    apply forallb_app_true; [destruct (s >? ls); reflexivity|]. cbn [forallb].
+    replace (cs >? ce) with false by lia. rewrite mk_span_fwd. exact (IH Ht e tl l2 E).
+Qed.
+
+Lemma fm_inverse_fwd fm inv : forallb fwd (fspans fm) = true -> in_parent fm = true ->
+  fm_inverse fm = Ok inv -> forallb fwd (fspans inv) = true.
+Proof.
+  intros Hf Hi. unfold fm_inverse.
+  destruct (inv_loop (sort_quads (inv_temp 0 (fspans fm))) 0) as [[sp ls]|c] eqn:E; cbn [bind]; [|discriminate].
+  intros [= <-]. cbn [fspans]. apply forallb_app_true; [|destruct (_ >? _); reflexivity].
+  apply (inv_loop_fwd (sort_quads (inv_temp 0 (fspans fm)))) with (ls := 0) (ls' := ls); [|exact E].
+  apply Forall_forall. intros q Hq. apply (proj1 (sort_quads_In q _)) in Hq.
+  exact (proj1 (Forall_forall _ _) (inv_temp_le (fplen fm) _ Hf Hi 0) q Hq).
+Qed.
+
+Lemma tfm_fwd m : IndelMapSpec.WF m -> forallb fwd (fspans (to_feature_map m)) = true.
+Proof.
+  intros H. unfold to_feature_map. cbn [fspans]. rewrite (tiled_fs _ _ _ (spans_tiled m H)).
+  apply forallb_forall. intros sp Hsp. apply in_map_iff in Hsp. destruct Hsp as ([a b|n] & <- & _); reflexivity.
+Qed.
+
+Lemma fmap_of_fwd n m : forallb fwd (fspans (fmap_of n m)) = true.
+Proof.
+  unfold fmap_of. cbn [fspans]. apply forallb_forall. intros sp Hsp. apply in_map_iff in Hsp.
+  destruct Hsp as ([a b|k] & <- & _); [apply mk_span_fwd|reflexivity].
+Qed.
+
+(** reading the spans of a forward map in order = reading its cells in order *)
+Lemma coordinates_read_cells l : forallb fwd l = true ->
+  flat_map (fun se => zrange (fst se) (snd se))
+           (flat_map (fun sp => match sp with FS s e _ => [(s, e)] | FL _ => [] end) l)
+  = somes (flat_map den_span l).
+Proof.
+  induction l as [|[s e r|n] t IH]; intros H; [reflexivity| |]; cbn [forallb] in H; apply andb_prop in H; destruct H as (Hr & Ht);
+    cbn [flat_map app]; rewrite somes_app, <- (IH Ht).
+  - destruct r; [discriminate|]. cbn [den_span fst snd]. rewrite somes_map_some. reflexivity.
+  - cbn [den_span]. rewrite somes_nones. reflexivity.
+Qed.
+
+(** HEADLINE (spans): the alignment-level map consists of forward spans only,
+    so the column ranges Feature.get_slice() reads, [get_coordinates()] in order,
+    enumerate exactly the Some-cells of the map in order: every span is a run of
+    consecutive columns of the cell-level denotation, and nothing else is read.
+    (Touching runs are NOT merged: a feature with abutting spans keeps two spans.) *)
+Lemma aln_map_spans_read_cells fx r spans minus fv am :
+  IndelMapSpec.WF (amap r) ->
+  Annot.make_feature fx (vlen (sv (adata r))) (is_reversed (sv (adata r))) spans minus = View.Ok fv ->
+  aligned_make_feature fx r spans minus = Ok (fv_minus fv, am) ->
+  forallb fwd (fspans am) = true /\
+  flat_map (fun se => zrange (fst se) (snd se)) (fm_get_coordinates (fm_without_gaps am)) = somes (den am).
+Proof.
+  intros Hwf Hmf H. unfold aligned_make_feature in H. rewrite Hmf in H. cbn [of_view bind] in H.
+  destruct (fm_inverse (to_feature_map (amap r))) as [inv|c] eqn:Einv; cbn [bind] in H; [|discriminate].
+  destruct (fm_getitem_map inv (fmap_of (vlen (sv (adata r))) (fv_map fv))) as [c|e] eqn:Ec; cbn [bind] in H; [|discriminate].
+  injection H as <-.
+  pose proof (fm_inverse_fwd _ inv (tfm_fwd _ Hwf) (tfm_in_parent _ Hwf) Einv) as Hinv.
+  unfold fm_getitem_map in Ec. destruct (remap_all _ inv) as [parts|e] eqn:Ep; cbn [bind] in Ec; [|discriminate].
+  injection Ec as <-. cbn [fspans].
+  pose proof (remap_all_fwd inv _ Hinv (fmap_of_fwd _ _) parts Ep) as Hparts.
+  split; [exact Hparts|].
+  unfold fm_get_coordinates, fm_without_gaps, den. cbn [fspans].
+  assert (Hfilt : forallb fwd (filter (fun sp => negb (FeatureMap.is_lost sp)) parts) = true).
+  { apply forallb_forall. intros sp Hsp. apply filter_In in Hsp. exact (proj1 (forallb_forall _ _) Hparts sp (proj1 Hsp)). }
+  rewrite (coordinates_read_cells _ Hfilt).
+  (* dropping the lost spans drops only None cells *)
+  clear. induction parts as [|[s e rr|n] t IH]; [reflexivity| |]; cbn [filter FeatureMap.is_lost negb flat_map]; rewrite !somes_app, IH.
+  - reflexivity.
+  - cbn [den_span]. rewrite somes_nones. reflexivity.
+Qed.
+
+(** * PHASE 3 (1): copies on sequences and collection members *)
+
+(** the history steps of a Sequence: [seq[a:b]], [rc()], [copy(sliced=True|False)],
+    [copy.deepcopy(seq)].  A sliced copy re-bases the view on the cut-down parent
+    and hands the old parent_start on as annotation offset (C01's CopySliced);
+    an unsliced copy and a Python deepcopy rebuild the view with the same
+    numbers, which is what the [:] slice does ([copy_view]).  The annotation db
+    is deep-copied with the same records in every case (the test
+    [strand == "-"] in the collection / Aligned deepcopy compares an int with a
+    str and never holds), so the db argument of the theorems is unchanged. *)
+Inductive seq_step := SSlice (a b : option Z) | SRc | SCopy (sliced : bool) | SDeepcopy.
+
+Definition seq_step_hop (s : seq_step) : hop :=
+  match s with
+  | SSlice a b => HOp (VSlice a b None)
+  | SRc => HOp VRc
+  | SCopy true => HCopy
+  | SCopy false | SDeepcopy => HOp (VSlice None None None)
+  end.
+
+Lemma seq_steps_unit l : Forall unit_hop (map seq_step_hop l).
+Proof.
+  apply Forall_forall. intros h Hh. apply in_map_iff in Hh. destruct Hh as (s & <- & _).
+  destruct s as [a b| |[|]|]; cbn; auto.
+Qed.
+
+Lemma copies_preserve_features_seq_lemma fx p0 off0 steps v0 v p f fv :
+  0 <= off0 -> mk_view (zlen p0) None None None off0 = View.Ok v0 ->
+  fold_left apply_hop (map seq_step_hop steps) (View.Ok (v0, p0)) = View.Ok (v, p) -> 0 < vlen v ->
+  spans_ok 0 (f_spans f) -> feature_on_view fx v f = View.Ok fv ->
+  fv_minus fv = xorb (f_minus f) (is_reversed v) /\
+  get_slice_str v p fv = View.Ok (denoted p0 off0 (parent_start v) (parent_stop v) f).
+Proof.
+  intros Hoff H0 Hfold Hlen Hok Hfv.
+  exact (history_with_copies_lemma fx p0 off0 _ v0 v p f fv Hoff H0 (seq_steps_unit steps) Hfold Hlen Hok Hfv).
+Qed.
